@@ -1,7 +1,7 @@
 """C17 — XML helper round-trips (ncclient/xml_.py)."""
 import xml.etree.ElementTree as ET
 
-from core import Check, hexs, unhexs, hlist
+from core import Check, hexs, unhexs, hlist, unhlist
 from cases import xml_gen as X
 
 
@@ -133,7 +133,7 @@ class C17(Check):
                 out.append({'kind': 'replace', 'tree': X.gen_tree(rng, comments=True), 'old': old, 'new': new})
         from props import C07 as P7
         for i in range(n // 2):
-            out.append({'kind': 'plain', 'tree': P7.plain_tree(rng)})
+            out.append({'kind': 'plain', 'tree': P7.plain_tree(rng), 'cut': rng.randrange(100)})
         for i, d in enumerate(RAW_DOCS):
             out.append({'kind': 'raw', 'i': i})
         out.append({'kind': 'ctor', 'steps': [['new_ele+nsmap-default', 'hello', 'urn:a'], ['sub_ele', 0, 'capabilities', 'urn:a', None, None],
@@ -153,8 +153,22 @@ class C17(Check):
             xml = nx.to_xml(el)
             body = xml[xml.index('?>') + 2:] if xml.startswith('<?xml') else xml
             xml2 = nx.to_xml(nx.to_ele(xml))
-            return {'ser': body, 'back': P7.plain_from_etree(ET.fromstring(xml.encode('utf-8'))), 'same_again': xml2 == xml,
-                    'lxml_back': P7.plain_from_etree(nx.to_ele(xml))}
+
+            def root_of(text):
+                try:
+                    tag, attrib = nx.parse_root(text)
+                    return [str(tag), [[str(a), str(b)] for a, b in attrib.items()]]
+                except Exception as e:
+                    return 'exc:' + type(e).__name__
+            # the root-only parse on the whole text and on a text that stops somewhere after the root's start tag (the rest never matters)
+            gt = body.index('>')
+            cut = body[:gt + 1 + (len(body) - gt - 1) * (case.get('cut', 37) % 100) // 100]
+            res = {'ser': body, 'back': P7.plain_from_etree(ET.fromstring(xml.encode('utf-8'))), 'same_again': xml2 == xml,
+                   'lxml_back': P7.plain_from_etree(nx.to_ele(xml)), 'root': root_of(body), 'root_cut': root_of(cut), 'cut_text': cut}
+            if not hasattr(self, '_last_plain'):
+                self._last_plain = {}
+            self._last_plain[id(case)] = res
+            return res
         if k == 'raw':
             raw = RAW_DOCS[case['i']]
             t1 = nx.to_ele(raw)
@@ -236,7 +250,11 @@ class C17(Check):
         ns = lambda x: hexs(x) if x else '-'
         if k == 'plain':
             from props import C07 as P7
-            return ['xd rt ' + ' '.join(P7.plain_toks(case['tree']))]
+            lines = ['xd rt ' + ' '.join(P7.plain_toks(case['tree']))]
+            io = getattr(self, '_last_plain', {}).get(id(case))
+            if io and 'ser' in io:
+                lines += ['xd root ' + hexs(io['ser']), 'xd root ' + hexs(io['cut_text'])]
+            return lines
         if k == 'validate':
             qn = lambda l: hlist('%s|%s' % (ns(a), hexs(b)) for a, b in l)
             reqs = ';'.join(qn(alts) for alts in case['reqs']) or '_'
@@ -252,7 +270,15 @@ class C17(Check):
             toks = outs[0].split(' ')
             if len(toks) < 3:
                 return {'bad': outs[0]}
-            return {'wf': toks[0], 'ser': unhexs(toks[1]), 'back': None if toks[2] == 'none' else P7.plain_from_toks(toks[2:])[0]}
+            def root_obs(o):
+                if o == 'none':
+                    return None
+                t = o.split(' ')
+                return [unhexs(t[0]), [[unhexs(x) for x in p.split('=')] for p in unhlist(t[1])]]
+            res = {'wf': toks[0], 'ser': unhexs(toks[1]), 'back': None if toks[2] == 'none' else P7.plain_from_toks(toks[2:])[0]}
+            if len(outs) >= 3:
+                res['root'], res['root_cut'] = root_obs(outs[1]), root_obs(outs[2])
+            return res
         if k == 'validate':
             return {'ok': outs[0] == '1'}
         if k == 'replace' and outs:
@@ -270,6 +296,11 @@ class C17(Check):
             return 'serialisation differs: to_xml %r, model %r' % (io['ser'][:200], mo['ser'][:200])
         if io['back'] != mo['back']:
             return 'reading differs: expat %r, model parseDoc %r' % (str(io['back'])[:200], str(mo['back'])[:200])
+        if 'root' in mo:
+            if io['root'] != mo['root']:
+                return 'root-only parse differs: parse_root %r, model parseRoot %r' % (str(io['root'])[:200], str(mo['root'])[:200])
+            if not str(io['root_cut']).startswith('exc:') and io['root_cut'] != mo['root_cut']:
+                return 'root-only parse of a text that stops after the start tag differs: parse_root %r, model %r' % (str(io['root_cut'])[:200], str(mo['root_cut'])[:200])
         return None
 
     def oracle(self, case, io):
